@@ -3,8 +3,8 @@ package main
 import "math/rand"
 
 func init() {
-	register(recvProp{id: "C12", w: 1, gen: genC12,
-		rule: "for each generated inbound stream (mixed stanzas with text, entities, nested unknown elements; <r/>, <a/>), the connection is cut at EVERY byte offset of the stream (exhaustive per stream), SM on/off, plus write faults at each answer (that write alone, or it and every later one); streams with a stream error in the middle (its handler leaving the connection alone, or replacing it as a StreamManager does) cut at every offset: the keepalive quit channel is sampled whenever the receive goroutine enters a callback or a transport call, so that the place where it is closed is compared with the model; one stream in three is read through the real XMPPTransport path (traffic logger + buffered decoder) over a scripted net.Conn whose last bytes arrive together with the read error; plus sessions over the real WebSocket transport whose TCP connection the peer resets (detected through the keepalive); a keepalive whose ping fails on a connection that ended behind a burst of 100-250 elements and which closes the transport before the receiver has read any of them; a client without error callback cut at many offsets; goroutines of the library are counted after quiescence; distinct = (stream, offset); non-trivial = at least 2 complete stanzas before the cut"})
+	register(c12Prop{r: recvProp{id: "C12", w: 1, gen: genC12,
+		rule: "for each generated inbound stream (mixed stanzas with text, entities, nested unknown elements; <r/>, <a/>), the connection is cut at EVERY byte offset of the stream (exhaustive per stream), SM on/off, plus write faults at each answer (that write alone, or it and every later one); streams with a stream error in the middle (its handler leaving the connection alone, or replacing it as a StreamManager does) cut at every offset: the keepalive quit channel is sampled whenever the receive goroutine enters a callback or a transport call, so that the place where it is closed is compared with the model; one stream in three is read through the real XMPPTransport path (traffic logger + buffered decoder) over a scripted net.Conn whose last bytes arrive together with the read error; plus sessions over the real WebSocket transport whose TCP connection the peer resets (detected through the keepalive); a keepalive whose ping fails on a connection that ended behind a burst of 100-250 elements and which closes the transport before the receiver has read any of them; a client without error callback cut at many offsets; goroutines of the library are counted after quiescence; distinct = (stream, offset); non-trivial = at least 2 complete stanzas before the cut"}}) // composite, see c12hist.go
 }
 
 func genC12(r *rand.Rand, tier string) []interface{} {
